@@ -137,6 +137,11 @@ func (ex *Exec) callBuiltin(name string, args []Val, c *ssa.CallCommon) Val {
 		return nil
 	case "print", "println":
 		return nil
+	case "ssa:wrapnilchk":
+		if p, ok := args[0].(Ptr); ok && p.P == nil {
+			ex.gopanic("nil-deref", "value method called using nil pointer")
+		}
+		return args[0]
 	case "min", "max":
 		r := args[0]
 		for _, a := range args[1:] {
